@@ -61,11 +61,14 @@ func VerifC19Others() {
 	tok, amount, err := e1.Extract(&http.Request{Host: host})
 	verifAssert("host-token", verifAnd(verifAnd(err == nil, tok == host), amount == 1))
 	// the configured header name may be spelled in any case (HTTP header names are case-insensitive)
-	spell := []string{"X-Custom", "x-custom", "X-CUSTOM"}[verifConcretize(verifInt("spelling"), 0, 2)]
+	// and may contain any token character, dots included
+	sp := verifConcretize(verifInt("spelling"), 0, 4)
+	spell := []string{"X-Custom", "x-custom", "X-CUSTOM", "X-Tenant.Id", "x-tenant.id"}[sp]
 	e2, err := NewExtractor("request.header." + spell)
 	verifAssert("header-built", err == nil)
 	h := http.Header{}
-	h.Set("X-Custom", hv)
+	h.Set([]string{"X-Custom", "X-Custom", "X-Custom", "X-Tenant.Id", "X-Tenant.Id"}[sp], hv)
+	h.Set("X-Tenant", "another header")
 	tok, amount, err = e2.Extract(&http.Request{Header: h})
 	verifAssert("header-token", verifAnd(verifAnd(err == nil, tok == hv), amount == 1))
 	// dispatch: accepted iff one of the two names or "request.header." + non-empty
